@@ -7,6 +7,10 @@ use serde_json::{Value, json};
 use std::collections::HashMap;
 use std::panic::{AssertUnwindSafe, catch_unwind};
 
+thread_local! {
+    pub static GUARDED: std::cell::Cell<bool> = const { std::cell::Cell::new(false) };
+}
+
 #[derive(Clone)]
 pub struct Rng(pub u64);
 impl Rng {
@@ -236,7 +240,11 @@ impl<'a> Interp<'a> {
     }
 
     fn guarded<T>(f: impl FnOnce() -> T) -> Result<T, ()> {
-        catch_unwind(AssertUnwindSafe(f)).map_err(|_| ())
+        // panics of the code under test are data; panics of the harness itself must stay loud
+        GUARDED.with(|g| g.set(true));
+        let r = catch_unwind(AssertUnwindSafe(f)).map_err(|_| ());
+        GUARDED.with(|g| g.set(false));
+        r
     }
 
     pub fn run(&mut self, cmds: &[Value]) {
